@@ -218,8 +218,12 @@ def expected_model(spec: dict, outcomes: list) -> list:
             lab, k, multi = schema.attr_table(o.op)[op['kw']]
             a = o.attrs[lab]
             if op.get('part', 'value') == 'value':
-                a.value = norm_value(k, multi, op['value'])
-                a.assigned = True
+                if op['value'] is None:         # `.value = None` clears the attribute
+                    a.value = None
+                    a.assigned = False
+                else:
+                    a.value = norm_value(k, multi, op['value'])
+                    a.assigned = True
                 a.route = 'later'
             else:
                 a.units = units_str(op['value'])
